@@ -124,7 +124,24 @@ def run_traj(case):
         if (rem > allowed).any():
             idx = tuple(np.argwhere(rem > allowed)[0])
             raise Violation('voxel-is-floor-of-coordinate', f'voxel {idx}: {rem[idx]} extra samples but only {allowed[idx]} on-edge samples may fall there')
-    labels = [case['lattice']['family']]
+    # one mapping everywhere: the coordinate -> voxel functions of the returned volume name the voxel the sample was counted in
+    from pymatgen.core import PeriodicSite
+
+    n_map = 0
+    for p in flat[:: max(1, len(flat) // 40)]:
+        cand = [axis_candidates(p[ax], dims[ax], exact_input)[0] for ax in range(3)]
+        if any(len(c) > 1 for c in cand) or any(abs(p[ax] * dims[ax] - round(p[ax] * dims[ax])) < BAND for ax in range(3)):
+            continue
+        v = tuple(next(iter(c)) for c in cand)
+        g1 = tuple(int(x) for x in np.asarray(gcall(vol.frac_coords_to_voxel, np.array(p))))
+        g2 = tuple(int(x) for x in np.asarray(gcall(vol.site_to_voxel, PeriodicSite('Li', np.array(p), vol.lattice))))
+        if g1 != v or g2 != v or data[v] < 1:
+            raise Violation('consistent-voxel-mapping', f'sample {p.tolist()} in grid {data.shape}: counted in voxel {v} (count {int(data[v])}), frac_coords_to_voxel gives {g1}, site_to_voxel gives {g2}')
+        c_ = np.asarray(gcall(vol.voxel_to_cart_coords, v), float)
+        if np.abs(c_ - ((np.array(v) + 0.5) / np.array(dims)) @ M).max() > 1e-9 * float(L.max()):
+            raise Violation('voxel-cartesian', f'{v}')
+        n_map += 1
+    labels = [case['lattice']['family']] + (['mapping-compared'] if n_map else [])
     if n_edge:
         labels.append('sample-on-voxel-edge')
     if n_last:
